@@ -92,12 +92,12 @@ type Peer struct {
 
 // per-store hook accounting
 type storeAcct struct {
-	spawned   int
-	loadDone  int
-	emitted   []uintptr // ids of LoadEnd batches emitted by the store's replicator
-	done      map[uintptr]bool
-	loadEnds  [][]ipfslog.Log // batches in emission order (to print)
-	printed   int
+	spawned  int
+	loadDone int
+	emitted  []uintptr // ids of LoadEnd batches emitted by the store's replicator
+	done     map[uintptr]bool
+	loadEnds [][]ipfslog.Log // batches in emission order (to print)
+	printed  int
 }
 
 type World struct {
@@ -109,42 +109,42 @@ type World struct {
 
 	mu     sync.Mutex
 	cond   *sync.Cond
-	acct   map[interface{}]*storeAcct // keyed by store (iface.Store) pointer
-	byRepl map[interface{}]interface{} // replicator -> store
+	acct   map[interface{}]*storeAcct             // keyed by store (iface.Store) pointer
+	byRepl map[interface{}]interface{}            // replicator -> store
 	hookFn func(name string, args ...interface{}) // family-specific extra hook
 
 	// per-scenario state
-	names   map[string]int // cid -> entry number
-	entries []ipfslog.Entry
-	stores  map[int]iface.Store // peer -> store of the scenario's database
-	kind    string
-	dbAddr  string
-	scnID   string
+	names          map[string]int // cid -> entry number
+	entries        []ipfslog.Entry
+	stores         map[int]iface.Store // peer -> store of the scenario's database
+	kind           string
+	dbAddr         string
+	scnID          string
 	quiesceTimeout time.Duration
-	sentMark  int
-	barrierSeq int
-	tampered   map[string]ipfslog.Entry
-	dbs        []*dbCtx
-	curDB      int
-	evc        map[int]*evCounter
-	evSubs     []event.Subscription
-	obsSuffix  string
-	lastAddr    string
-	closedStores []iface.Store
-	closedOf     map[int]iface.Store
-	leakBase     int
-	evw         map[int]*evWatch
-	emitter     *events.EventEmitter
-	esubs       map[string]*esub
-	pendingEmit chan struct{}
-	roots       map[string]int
-	extraStores []iface.Store
-	heldHooks   map[string]chan struct{}
-	hookWaiting map[string]int
-	lastForged string
-	gate    *gateCtl
-	cancels map[string]context.CancelFunc
-	expectPub bool
+	sentMark       int
+	barrierSeq     int
+	tampered       map[string]ipfslog.Entry
+	dbs            []*dbCtx
+	curDB          int
+	evc            map[int]*evCounter
+	evSubs         []event.Subscription
+	obsSuffix      string
+	lastAddr       string
+	closedStores   []iface.Store
+	closedOf       map[int]iface.Store
+	leakBase       int
+	evw            map[int]*evWatch
+	emitter        *events.EventEmitter
+	esubs          map[string]*esub
+	pendingEmit    chan struct{}
+	roots          map[string]int
+	extraStores    []iface.Store
+	heldHooks      map[string]chan struct{}
+	hookWaiting    map[string]int
+	lastForged     string
+	gate           *gateCtl
+	cancels        map[string]context.CancelFunc
+	expectPub      bool
 }
 
 func NewWorld(ctx context.Context, n int, out *bufio.Writer) (*World, error) {
